@@ -161,6 +161,10 @@ impl Property for C19 {
             // an undecodable line at this position of the main input: an interrupt that arrives before it is
             // consumed must still end the query without an error
             "bad_at": if kind != "follow" && rng.chance(1, 6) { json!(rng.below(n_main + 1)) } else { J::Null },
+            // a further input file that cannot be read at all (EIO on its first read), placed after the real ones
+            "unreadable_last": kind != "follow" && rng.chance(1, 8),
+            // follow mode: this percentage of the lines already exists when following starts with --head
+            "finit": if kind == "follow" && rng.chance(1, 3) { json!(*rng.pick(&[100u64, 60, 30])) } else { J::Null },
         })
     }
 
@@ -188,7 +192,8 @@ impl Property for C19 {
             return out;
         }
         let follow = kind == "follow";
-        let aggregate = kind.contains("aggregate");
+        let aggregate = kind.contains("aggregate") || (follow && stmt.to_uppercase().contains("(") && (stmt.to_uppercase().contains(" GROUP BY ") || stmt.contains("COUNT(") || stmt.contains("SUM(") || stmt.contains("MAX(") || stmt.contains("MIN(") || stmt.contains("AVG(") || stmt.contains("PERCENTILE(") || stmt.contains("STDDEV(") || stmt.contains("VARIANCE(") || stmt.contains("_AGG(") || stmt.contains("BOOL_")));
+        let unreadable_last = !follow && jbool(case, "unreadable_last");
         let bad_at: Option<usize> = if follow { None } else { case.get("bad_at").and_then(|x| x.as_u64()).map(|x| x as usize) };
         // the files as the query sees them (with the undecodable line, if any)
         let files_run: Vec<Vec<u8>> = match bad_at {
@@ -212,7 +217,7 @@ impl Property for C19 {
         };
         let features = json!({"kind": kind, "joined": joined.is_some()});
         let all_lines: Vec<Vec<u8>> = files.iter().flat_map(|f| complete_lines(f)).collect();
-        let n_main_files = if follow { 1 } else { files.len() };
+        let n_main_files = if follow { 1 } else { files.len() + (!follow && jbool(case, "unreadable_last")) as usize };
         let case_hash = fnv(serde_json::to_string(case).unwrap().as_bytes());
         let follow_content: Vec<u8> = gen::join_lines(&all_lines, true);
         let main_contents: Vec<(usize, &[u8])> = if follow { vec![(0, &follow_content[..])] } else { files_run.iter().enumerate().map(|(i, f)| (i, &f[..])).collect() };
@@ -221,9 +226,14 @@ impl Property for C19 {
         let make_spec = |interrupt: Option<Interrupt>| -> WorldSpec {
             if follow {
                 let mut spec = WorldSpec::new(&defs, &stmt, Mode::FollowExec { head: true });
-                spec.files.push((FOLLOW_PATH.to_owned(), Vec::new()));
+                // some of the lines may already be in the file (--head catches up on them first)
+                let pre = match case.get("finit").and_then(|x| x.as_u64()) {
+                    Some(pct) => (all_lines.len() as u64 * pct.min(100) / 100) as usize,
+                    None => 0,
+                };
+                spec.files.push((FOLLOW_PATH.to_owned(), gen::join_lines(&all_lines[..pre], true)));
                 // lockstep writer: one whole line per append, landing one per read
-                spec.appends = all_lines.iter().map(|l| { let mut v = l.clone(); v.push(b'\n'); v }).collect();
+                spec.appends = all_lines[pre..].iter().map(|l| { let mut v = l.clone(); v.push(b'\n'); v }).collect();
                 spec.steps = vec![Step { land: 0, fault: crate::seam::Fault::None }, Step { land: 0, fault: crate::seam::Fault::None }];
                 for _ in 0..all_lines.len() {
                     spec.steps.push(Step { land: 1, fault: crate::seam::Fault::None });
@@ -237,6 +247,10 @@ impl Property for C19 {
                 spec
             } else {
                 let mut spec = batch_spec(&defs, &stmt, &files_run, joined.as_deref());
+                if unreadable_last {
+                    spec.files.push(("/simfs/unreadable.log".to_owned(), b"never seen\n".to_vec()));
+                    spec.unreadable_file = Some(spec.files.len() - 1);
+                }
                 spec.read_mode = ReadMode::Line;
                 spec.format = format.clone();
                 spec.single_result = single;
@@ -250,7 +264,8 @@ impl Property for C19 {
         if !usable(&mut out, "c19", &base, &features) {
             return out;
         }
-        let base_fails_on_bad_line = bad_at.is_some() && matches!(&base.status, Status::Err(msg) if msg.contains("read file"));
+        let base_fails_on_bad_line = (bad_at.is_some() || unreadable_last) && matches!(&base.status, Status::Err(msg) if msg.contains("read file"));
+        out.probe("unreadable_later_input_file", unreadable_last as u64);
         if base.status != Status::Ok && !base_fails_on_bad_line {
             // a statement that fails on this data is not a scenario for this property
             out.invalid = Some(format!("uninterrupted run: {}", status_label(&base.status)));
@@ -356,7 +371,14 @@ impl Property for C19 {
                             Some(a) => a.clone(),
                             None => {
                                 let mut rspec = make_spec(None);
-                                rspec.appends.truncate(served_before);
+                                // the reference follower sees exactly the first `served_before` lines
+                                let pre_lines = complete_lines(&rspec.files[0].1).len();
+                                if served_before <= pre_lines {
+                                    rspec.files[0].1 = gen::join_lines(&all_lines[..served_before], true);
+                                    rspec.appends.clear();
+                                } else {
+                                    rspec.appends.truncate(served_before - pre_lines);
+                                }
                                 let r = run(&mut out, &format!("follow reference over first {} lines", served_before), &rspec, false);
                                 follow_reference.insert(served_before, r.stdout.clone());
                                 r.stdout
@@ -364,6 +386,10 @@ impl Property for C19 {
                         };
                         if !allowed.starts_with(&res.stdout) {
                             fail(&mut out, "c19.consumed_after_interrupt", format!("{} bytes were printed, more than an uninterrupted follower prints for the {} lines served before the interrupt ({} bytes)", res.stdout.len(), served_before, allowed.len()));
+                        } else if aggregate && res.stdout != allowed && res.log.get(e).map(|ev| ev.kind == EvKind::Read).unwrap_or(false) {
+                            // an interrupted aggregate shows the table for exactly the lines consumed: every line served
+                            // before the interrupting read has been consumed by then
+                            fail(&mut out, "c19.partial_table_wrong", format!("follow mode: {} lines were consumed before the interrupt but the screen holds {} bytes instead of the {} an uninterrupted follower shows for them", served_before, res.stdout.len(), allowed.len()));
                         }
                         let later_lines = lines_served_from(&res, &main_contents, e);
                         if later_lines > 1 {
